@@ -53,6 +53,7 @@ class World:
         self.results = {}
         self.labels = []
         self.npay = 0
+        self.late = []  # [direction, deliveries still to wait, wire frame]: copies the line delivers late
 
     def close(self):
         self.loop.shutdown()
@@ -134,6 +135,15 @@ class World:
         if fault == "x":
             return True
         copies = [w, w] if fault == "d" else [self._corrupt(self.rng, w) if fault == "c" else w]
+        if fault == "l":  # duplicate whose copy is held back by the line for the next 2..4 frames of that direction
+            self.late.append([direction, self.rng.randint(2, 4), w])
+        else:
+            for e in self.late:
+                if e[0] == direction:
+                    e[1] -= 1
+            due = [e for e in self.late if e[0] == direction and e[1] <= 0]
+            self.late = [e for e in self.late if e not in due]
+            copies += [e[2] for e in due]
         for c in copies:
             if direction == "h2n":
                 self.ncp.receive(c)
@@ -204,7 +214,7 @@ def scenario(rng, window, plan, nh, nn, extra, focus="mix"):
         for _ in range(nn):
             w.ncp_submit()
         for f in plan:
-            if focus != "mix":
+            if focus in ("h2n", "n2h"):
                 other = "h2n" if focus == "n2h" else "n2h"
                 for _ in range(50):  # the other direction is fault-free and prompt
                     if not (w.h2n if other == "h2n" else w.n2h):
@@ -237,7 +247,7 @@ def scenario(rng, window, plan, nh, nn, extra, focus="mix"):
                 w.ncp_timeout()
             else:
                 d = "h2n" if (w.h2n and (not w.n2h or rng.random() < 0.5)) else "n2h"
-                w.deliver(d, rng.choice("vvvvvvxcds"))
+                w.deliver(d, rng.choice("vvvvvvxcdsll" if focus == "late" else "vvvvvvxcds"))
         w.quiesce()
         failed_link = w.p._ncp_state != w.ash.NcpState.CONNECTED
         return w, oracle(w), failed_link
@@ -260,6 +270,9 @@ def cases(ctx):
         cs.append((1, "".join(plan), 3, 0, 0, "h2n"))
     for _ in range(ctx.n(400, 6000)):
         cs.append((rng.choice([1, 2, 3]), "", rng.randint(0, 3), rng.randint(0, 3), rng.randint(20, 120), "mix"))
+    # beyond the FIFO channels of the theorem (oracle only): a duplicate whose copy arrives 2..4 frames late
+    for _ in range(ctx.n(400, 6000)):
+        cs.append((rng.choice([1, 2, 3]), "", rng.randint(0, 3), rng.randint(0, 3), rng.randint(20, 120), "late"))
     return cs
 
 
@@ -291,7 +304,7 @@ def run(ctx):
     ctx.cov["distinct_nontrivial"] = nontriv
     ctx.count("runs_fully_delivered", complete)
     ctx.cov["rule"] = (f"NCP windows 1..3 x every assignment of {{deliver, drop, corrupt, duplicate, stall}} to the first {ctx.n(5, 7)} wire frames of a 2+2-message exchange, and to the first {ctx.n(5, 7) + 1} frames of a 3-message burst in one direction with the other direction fault-free (exhaustive), then fair completion; "
-                       "random runs of 20..120 labels (submissions on both sides, caller cancellation, host/NCP timeouts, faulty deliveries) with up to 3+3 initial messages, frame numbers wrapping; "
+                       "the same number of random runs in which a duplicate's copy is delivered 2..4 frames late (outside the FIFO channels of the theorem; oracle only); random runs of 20..120 labels (submissions on both sides, caller cancellation, host/NCP timeouts, faulty deliveries) with up to 3+3 initial messages, frame numbers wrapping; "
                        "non-trivial = at least one fault and at least one delivery; schedules are seeded, so distinct by construction")
     ctx.exhaustive = True
 
